@@ -51,7 +51,9 @@ INITIALISMS = {"API", "ASCII", "CPU", "CSS", "DNS", "EOF", "GUID", "HTML", "HTTP
 ENUM_NAME_THROUGH_TYPEDEF = True
 DEFAULT_FEATURES = {"services": True, "scopes": True, "consts": True, "recursive": True,
                     "typedef_struct": True, "typedef_chain_include": False, "new_prefix": True, "snake_service": False,
-                    "service_typedef_foreign": False}
+                    "service_typedef_foreign": False,
+                    # a typedef may reuse the bare name of a typedef of an included file (inc.X and X are different types)
+                    "name_collision": True}
 
 
 # ------------------------------------------------------------------------------------------------
@@ -644,7 +646,14 @@ class _Gen:
                 t = self.rand_type(fn, depth=1)
                 if not self.feat["typedef_struct"] and _type_head_struct(self.program, t):
                     continue
-            f["typedefs"].append({"name": self.name(["T%d", "my_type_%d", "Id%d", "alias%d"]), "type": t})
+            nm = self.name(["T%d", "my_type_%d", "Id%d", "alias%d"])
+            if self.feat.get("name_collision") and self.rng.random() < 0.35:
+                mine = {d["name"] for d in f["typedefs"]}
+                theirs = [d["name"] for inc in f["includes"] for d in self.program["files"][inc]["typedefs"]
+                          if d["name"] not in mine]
+                if theirs:
+                    nm = self.rng.choice(theirs)
+            f["typedefs"].append({"name": nm, "type": t})
 
     def gen_default(self, fn, t, mod):
         """A default value for a field of type t, or None.  Kept to what generateConstantValue renders correctly."""
